@@ -316,7 +316,13 @@ func TestC17(t *testing.T) {
 		if !want(idx) {
 			continue
 		}
-		runPxScenario(t, idx, "proxy", sc, em)
+		kind := "proxy"
+		for _, tg := range sc.Tags {
+			if tg == "concurrent-cancel" {
+				kind = "proxy-loose" // faults and cancellation in one step: judged by the predicates alone
+			}
+		}
+		runPxScenario(t, idx, kind, sc, em)
 	}
 	// free-running stress with forged sources, judged by the source predicate
 	base := len(scs)
